@@ -247,19 +247,20 @@ theorem end_once :
 
 /-- a context that is legally inside the main loop -/
 def Running (s : Sim) : Prop :=
-  (s.ctl.st = "population_creation" ∨ s.ctl.st = "collect_metrics") ∧ s.ctl.setupDone = true ∧ s.ctl.created = true
+  (s.ctl.st = "population_creation" ∨ s.ctl.st = "collect_metrics") ∧ s.ctl.setupDone = true ∧ s.ctl.created = true ∧
+  s.ctl.failOn = ""     -- no listener failure injected
 
 /-- Sim-level `step()`: succeeds from a running context, advances the clock by exactly the step,
 stays running, and leaves step size and stop time alone -/
 theorem call_step_running (s : Sim) (h : Running s) :
     ∃ s', call "step" s = .ok s' ∧ Running s' ∧ s'.clock = s.clock + s.step ∧ s'.step = s.step ∧ s'.stop = s.stop := by
-  obtain ⟨⟨st, sd, cr, fr, log⟩, clock, step, stop, tlog⟩ := s
-  obtain ⟨hst, hsd, hcr⟩ := h
-  simp only at hst hsd hcr
-  subst hsd hcr
+  obtain ⟨⟨st, sd, cr, fr, log, fo⟩, clock, step, stop, tlog⟩ := s
+  obtain ⟨hst, hsd, hcr, hfo⟩ := h
+  simp only at hst hsd hcr hfo
+  subst hsd hcr hfo
   rcases hst with rfl | rfl
-  · exact ⟨_, rfl, ⟨Or.inr rfl, rfl, rfl⟩, rfl, rfl, rfl⟩
-  · exact ⟨_, rfl, ⟨Or.inr rfl, rfl, rfl⟩, rfl, rfl, rfl⟩
+  · exact ⟨_, rfl, ⟨Or.inr rfl, rfl, rfl, rfl⟩, rfl, rfl, rfl⟩
+  · exact ⟨_, rfl, ⟨Or.inr rfl, rfl, rfl, rfl⟩, rfl, rfl, rfl⟩
 
 /-- the engine's `run()` (skeleton model) follows the abstract run loop: same final clock, for every
 fuel, start, stop and step -/
